@@ -14,6 +14,8 @@ class Finding:
         self.predicted = predicted  # what engine B predicts the real code returns on the witness
         self.native = None
         self.confirmed = None
+        self.native_op = op
+        self.via = "function"
 
     def key(self):
         return (self.prop, self.op, self.arm, self.cls, self.profile)
@@ -21,7 +23,8 @@ class Finding:
     def as_dict(self):
         return {"property": self.prop, "fn": self.op, "arm": self.arm, "class": self.cls, "profile": self.profile,
                 "witness": [[k, hex(v) if isinstance(v, int) else v] for k, v in self.witness],
-                "detail": self.detail, "predicted": self.predicted, "native": self.native, "confirmed": self.confirmed}
+                "detail": self.detail, "predicted": self.predicted, "native": self.native, "confirmed": self.confirmed,
+                "native_op": self.native_op, "via": self.via}
 
 
 class QueryStats:
@@ -33,6 +36,9 @@ class QueryStats:
         self.solver_s = 0.0
         self.samples = []
         self.by_candidate = 0
+
+
+WITNESS_CACHE = {}
 
 
 def solve(cond, timeout_ms, seed):
@@ -69,6 +75,22 @@ def decide(cond, summ, qs, timeout_ms, seed, label):
     if z3.is_false(c):
         qs.discharged += 1
         return "unsat", None
+    # witnesses found earlier for the same kernel instance are tried first (evaluation only; a hit is still replayed natively)
+    for vals in WITNESS_CACHE.get((summ.op, summ.kinds), []):
+        subs = [(summ.inputs[i].e, K.const_of(summ.kinds[i], vals[i])) for i in range(len(vals))]
+        if z3.is_true(z3.simplify(z3.substitute(c, *subs))):
+            qs.violated += 1
+            qs.by_candidate += 1
+            return "sat", list(vals)
+    if summ.op == "mul" and ":must-fail" in label or ":C17" in label and summ.op == "mul":
+        # wide multiplications: witness search by evaluation on the boundary grid is much cheaper than bit-blasting
+        for vals in candidates(summ):
+            subs = [(summ.inputs[i].e, K.const_of(summ.kinds[i], vals[i])) for i in range(len(vals))]
+            if z3.is_true(z3.simplify(z3.substitute(c, *subs))):
+                qs.violated += 1
+                qs.by_candidate += 1
+                WITNESS_CACHE.setdefault((summ.op, summ.kinds), []).append(list(vals))
+                return "sat", list(vals)
     r, m = solve(c, timeout_ms, seed)
     qs.solver_s += time.time() - t
     if r == z3.unsat:
@@ -78,7 +100,9 @@ def decide(cond, summ, qs, timeout_ms, seed, label):
         return "unsat", None
     if r == z3.sat:
         qs.violated += 1
-        return "sat", [nan_bits(v) for v in model_values(m, summ)]
+        vals = [nan_bits(v) for v in model_values(m, summ)]
+        WITNESS_CACHE.setdefault((summ.op, summ.kinds), []).append(vals)
+        return "sat", vals
     # unknown: candidate search by evaluation (a found witness is checked natively anyway)
     for vals in candidates(summ):
         subs = [(summ.inputs[i].e, K.const_of(summ.kinds[i], vals[i])) for i in range(len(vals))]
@@ -96,7 +120,7 @@ def check_summary(summ, profile, qs, timeout_ms=20000, seed=0, want_c05=True, wa
     arm = ",".join(kinds)
     orc = K.oracle(op, kinds, summ.inputs)
     out = []
-    lab = "%s[%s]/%s" % (op, arm, profile)
+    lab = "%s[%s]/%s%s" % (op, arm, profile, "" if summ.via == "function" else "/instr")
 
     def add(prop, cls, vals, detail):
         w = [(kinds[i], vals[i]) for i in range(len(vals))]
@@ -104,7 +128,10 @@ def check_summary(summ, profile, qs, timeout_ms=20000, seed=0, want_c05=True, wa
             pred = K.eval_summary(summ, vals)
         except Inconclusive as e:
             pred = ("?", str(e))
-        out.append(Finding(prop, op, arm, cls, profile, w, detail, predicted=list(pred)))
+        f = Finding(prop, op, arm, cls, profile, w, detail + (" [via %s]" % summ.via if summ.via != "function" else ""), predicted=list(pred))
+        f.native_op = native_op(summ)
+        f.via = summ.via
+        out.append(f)
 
     # O0: the path conditions cover every input
     if want_c05:
@@ -189,8 +216,12 @@ def validation_vectors(summaries, extra=None):
     return vecs
 
 
+def native_op(summ):
+    return summ.op if summ.via == "function" else "I:" + summ.op
+
+
 def to_native(vid, summ, vals):
-    return (vid, summ.op, [(summ.kinds[i], vals[i]) for i in range(len(vals))])
+    return (vid, native_op(summ), [(summ.kinds[i], vals[i]) for i in range(len(vals))])
 
 
 def same_result(a, b):
